@@ -150,6 +150,15 @@ def run(ctx):
         if o.rule in ('C13.NOREAD', 'C13.INPLACE'):
             o.rule = 'C02.%s(=C13)' % o.rule.split('.')[1]
             ctx.obligations.append(o)
+    # "deriving ... from the corresponding extended public key": the public parent is what parse makes of the string -
+    # C07's layout obligation (fields at widths 4,1,4,4,32,33, unsigned) is part of this property
+    from . import C07
+    sub7 = ctx.__class__('C02', ctx.tier, ctx.p, ctx.seed)
+    C07.run(sub7)
+    for o in sub7.obligations:
+        if o.rule in ('C07.LAYOUT',):
+            o.rule = 'C02.PARSE(=C07.LAYOUT)'
+            ctx.obligations.append(o)
     # agreement along sub-paths (the multi-level claim) rests on derive_path being the left fold of ckd on both node kinds
     from . import C17
     C17.check_fold(ctx, 'C02.FOLD(=C17)')
